@@ -69,3 +69,6 @@ package ast
 //@ functype SetCursorProvider(tx, forward)
 //@   pure
 //@   ensures result != nil ==> fresh(ref(result)) && curPos[result] == 0 && 0 <= curLen[result] && curLen[result] < MaxInt64
+
+//@ func (Query).GetSortFields
+//@   pure
